@@ -148,6 +148,39 @@ def local_move_ok(v: "FnView", st: ast.AST, was: str, now: str) -> bool:
     return True
 
 
+def def_uses(v: "FnView") -> dict[str, list[int]]:
+    """For every plain assignment to one local name (keyed by its normalised text, one entry per
+    occurrence): the number of CFG nodes that may read the value it stores (reaching definitions)."""
+    IN = v.cfg.reaching_defs()
+    out: dict[str, list[int]] = {}
+    for st in walk_own(v.fn.node):
+        if isinstance(st, ast.Assign) and len(st.targets) == 1 and isinstance(st.targets[0], ast.Name):
+            name = st.targets[0].id
+        elif isinstance(st, (ast.AnnAssign, ast.AugAssign)) and isinstance(st.target, ast.Name) and getattr(st, "value", None) is not None:
+            name = st.target.id
+        else:
+            continue
+        k = 0
+        for n in v.cfg.nodes:
+            x = n.node
+            if x is None or isinstance(x, (ast.FunctionDef, ast.AsyncFunctionDef, ast.ClassDef, ast.If, ast.While, ast.Try, ast.With)):
+                continue
+            if st not in IN.get(n, {}).get(name, ()):
+                continue
+            scope = x.iter if isinstance(x, (ast.For, ast.AsyncFor)) else x
+            if any(isinstance(y, ast.Name) and y.id == name and isinstance(y.ctx, ast.Load) for y in ast.walk(scope)) or (isinstance(x, ast.AugAssign) and isinstance(x.target, ast.Name) and x.target.id == name):
+                k += 1
+        # a name shared with an enclosing / global scope is read elsewhere
+        if any(isinstance(y, (ast.Nonlocal, ast.Global)) and name in y.names for y in ast.walk(v.fn.node)):
+            k += 1
+        # a closure that reads the name may run at any time
+        for f in ast.walk(v.fn.node):
+            if f is not v.fn.node and isinstance(f, (ast.FunctionDef, ast.AsyncFunctionDef, ast.Lambda)) and any(isinstance(y, ast.Name) and y.id == name for y in ast.walk(f)):
+                k += 1
+        out.setdefault(" ".join(src(st).split()), []).append(k)
+    return {k_: sorted(x) for k_, x in out.items()}
+
+
 def stmt_contexts(v: "FnView") -> dict[str, list[str]]:
     """Control context of every simple statement of the function, keyed by its normalised text: the
     atomic test outcomes that dominate it, the headers of the loops around it, and the exits of the
